@@ -71,7 +71,7 @@ func RegionAlgebraParallel(p *core.Prog, r *core.Report, kMax int) {
 }
 
 func regionAlgebra(p *core.Prog, r *core.Report, kMax int, workers int) {
-	r.Rule("MINIMIZE", "for every ordering of the endpoints of up to k non-empty segments (either orientation, flat or nested), Minimize returns forward, non-empty, strictly increasing, non-abutting segments whose union is exactly the union of the inputs; decided by abstract interpretation over order types (coordinates are only compared, copied and stored)", 1)
+	r.Rule("MINIMIZE", "for every ordering of the endpoints of 0 to k non-empty segments (either orientation, flat or nested; 0: the empty collection), Minimize returns forward, non-empty, strictly increasing, non-abutting segments whose union is exactly the union of the inputs; decided by abstract interpretation over order types (coordinates are only compared, copied and stored)", 1)
 	r.Rule("INVERT", "for the same orderings with 0 <= every endpoint <= n, InvertLinear returns non-empty segments that together with the minimized segments cover every position of [0,n) exactly once; InvertCircular covers the same positions and merges the last and first gap into one region exactly when neither 0 nor n is covered", 2)
 	// the entry points and the sort interface; internal helpers (flattenRegion, invertSegments, or
 	// whatever they are called or turned into) are followed by the interpreter as it meets them
@@ -104,7 +104,7 @@ func regionAlgebra(p *core.Prog, r *core.Report, kMax int, workers int) {
 		}
 		fails = append(fails, failure{rule, what})
 	}
-	for k := 1; k <= kMax && und == ""; k++ {
+	for k := 0; k <= kMax && und == ""; k++ { // k = 0: the empty collection
 		k := k
 		work := func(pr []int) {
 			mu.Lock()
